@@ -467,7 +467,7 @@ def run(rep, tier):
             if xs["x"] is None or xs["y"] is None or exact(c["op"], xs["x"], xs["y"]) != c["r"] \
                     or (c["pin"] in ("x", "both") and xs["x"] != c["x0"]) or (c["pin"] in ("y", "both") and xs["y"] != c["y0"]):
                 fail("failing-input", f"the valid counterexample {xs} does not satisfy the exact constraints of {c}", {"real": c, "implementation": o["model"]}, sig={"what": "cex-not-reproducible"})
-        if m is not None and o["out1"] is not None:
+        if m is not None and o["out1"] is not None and o["result"] != 2:  # a solver timeout leaves no output to replay
             calls.append(("c04_e2e", [0, 0, int(o["changes"]), len(o["out1"])] + txt(o["out1"]) + txt(o["out2"] or "")))
         else:
             calls.append(None)
